@@ -26,8 +26,8 @@ def _fm():
 
 
 # ---------------------------------------------------------------------------------------------------
-def cache_seq(S, nops, out_len, first_op):
-    f = lib.make_function(S, 'F', 1, out_len, cache=True)
+def cache_seq(S, nops, out_len, first_op, scalar_eval=False):
+    f = lib.make_function(S, 'F', 1, out_len, cache=True, scalar_eval=scalar_eval)
     model_cache = set()  # distinct points evaluated since last reset (only meaningful while caching is on)
     caching = True
     pts_used = 0
@@ -336,6 +336,10 @@ def jobs(tier):
             js.append(Job('cache[ops=%d,out=%d,first=%d]' % (b['cache sequences: operations'], out_len, first_op), cache_seq,
                           {'nops': b['cache sequences: operations'], 'out_len': out_len, 'first_op': first_op},
                           validate=(7 if tier == 'quick' else 3)))
+            if out_len == 1:
+                js.append(Job('cache[ops=%d,out=1,scalar-eval,first=%d]' % (b['cache sequences: operations'], first_op), cache_seq,
+                              {'nops': b['cache sequences: operations'], 'out_len': 1, 'first_op': first_op, 'scalar_eval': True},
+                              validate=(7 if tier == 'quick' else 3)))
     for cls in ['FunctionLinear', 'GenzCornerPeak', 'GenzProductPeak', 'GenzOszillatory', 'GenzC0', 'GenzGaussian', 'FunctionExpVar']:
         for d in b['vectorised classes dims']:
             if cls == 'GenzProductPeak' and d > 2:
